@@ -1,0 +1,6 @@
+//go:build !verif
+// +build !verif
+
+package server
+
+func verifPointS(name string, s string) {}
